@@ -281,7 +281,7 @@ split_state = function(
     2: _split_inv('flat_states', '_k') + [
         'forall(Int, lambda jj: implies(0 <= jj and jj < _k, not holds(denotes(filters[jj]), path, value)))'],
   },
-  bindings=SPB, props=('C14', 'C16'))
+  bindings=SPB, props=('C14', 'C16', 'C03'))
 split_state.vararg = 'filters'
 split_state.assume_axioms = CONV_AX
 split_state.locals = {'flat_states': Groups, 'predicates': Preds}
